@@ -67,7 +67,7 @@ var opGen = rapid.Custom(func(t *rapid.T) Op {
 		op.Verb = rapid.SampledFrom([]string{"list", "show", "source", "uisource", "uimsg", "uihtml", "seen", "seen", "seenfalse", "seenjunk", "delete", "delete", "purge", "uiattach", "uiattach"}).Draw(t, "verb")
 	default:
 		op.K = "client"
-		op.Verb = rapid.SampledFrom([]string{"list", "get", "source", "seen", "seen", "delete", "purge", "hget", "hsource", "hdelete"}).Draw(t, "cverb")
+		op.Verb = rapid.SampledFrom([]string{"list", "get", "source", "seen", "seen", "delete", "purge", "hget", "hsource", "hdelete", "list", "heldget", "helddelete"}).Draw(t, "cverb")
 	}
 	return op
 })
@@ -139,6 +139,9 @@ func run(c Case) *hx.Outcome {
 	model := map[string][]*item{}
 	issued := map[string][]string{}
 	delivered, mutated, missing, clientSpecial := false, false, false, false
+	var held *client.MessageHeader // a header kept from an earlier client listing
+	var heldBox string
+	var heldItem *item
 
 	findIdx := func(box, id string) int {
 		l := model[box]
@@ -426,6 +429,15 @@ func run(c Case) *hx.Outcome {
 						fail("response-differs", "%s: client header %+v vs store id=%s subject=%q size=%d seen=%v", where, *h.JSONMessageHeaderV1, it.id, it.subject, it.size, it.seen)
 					}
 				}
+				if len(hs) > 0 && op.Verb == "list" {
+					// keep one header of this listing for later: a header is a value the caller owns,
+					// whatever listings the client is asked for afterwards
+					k := 0
+					if op.Ref.N%3 == 0 {
+						k = op.Ref.N % len(hs)
+					}
+					held, heldBox, heldItem = hs[k], box, model[box][k]
+				}
 				if len(hs) == 0 || op.Verb == "list" {
 					break
 				}
@@ -449,6 +461,48 @@ func run(c Case) *hx.Outcome {
 						mutated = true
 					}
 				}
+			case "heldget", "helddelete":
+				if held == nil {
+					break
+				}
+				pos := -1
+				for k, it := range model[heldBox] {
+					if it == heldItem {
+						pos = k
+					}
+				}
+				// other listings in between (what a program polling several mailboxes does)
+				for other, l := range model {
+					if other != heldBox && len(l) > 0 {
+						_, _ = cl.ListMailbox(other)
+					}
+				}
+				if held.ID != heldItem.id || held.Mailbox != heldBox {
+					fail("client-header-changed", "%s: a header kept from an earlier ListMailbox (mailbox %q id %s) now says mailbox %q id %s", where, heldBox, heldItem.id, held.Mailbox, held.ID)
+					held = nil
+					break
+				}
+				if op.Verb == "heldget" {
+					m, err := held.GetMessage()
+					if pos < 0 {
+						if err == nil {
+							fail("client-missing", "%s: GetMessage through a kept header of a message that no longer exists succeeded: %+v", where, m)
+						}
+					} else if err != nil || m.ID != heldItem.id || m.Subject != heldItem.subject {
+						fail("client-convenience", "%s: GetMessage through a header kept from an earlier listing (%s/%s): %+v %v", where, heldBox, heldItem.id, m, err)
+					}
+					break
+				}
+				err := held.Delete()
+				if pos >= 0 {
+					if err != nil {
+						fail("client-convenience", "%s: Delete through a header kept from an earlier listing (%s/%s): %v", where, heldBox, heldItem.id, err)
+					} else {
+						model[heldBox] = append(append([]*item{}, model[heldBox][:pos]...), model[heldBox][pos+1:]...)
+						mutated = true
+					}
+				}
+				held = nil
 			case "get":
 				m, err := cl.GetMessage(ask, cid)
 				if idx < 0 {
